@@ -10,9 +10,13 @@ ROOT = Path(__file__).resolve().parent.parent
 only = sys.argv[1:]
 rows = []
 for d in sorted((ROOT / "seeded").iterdir()):
-    if not (d / "meta.json").exists() or (only and not any(o in d.name for o in only)):
+    if not (d / "meta.json").exists():
         continue
     meta = json.loads((d / "meta.json").read_text())
+    if only and not any(o in d.name for o in only):
+        if "verif_result" in meta:  # not re-run now: keep the recorded result in the table
+            rows.append((d.name, meta, meta["verif_result"]))
+        continue
     out = subprocess.run([str(ROOT / "tools/run_seed.sh"), f"seeded/{d.name}"], capture_output=True, text=True, cwd=ROOT).stdout.strip().splitlines()
     line = out[-1] if out else "no output"
     m = re.search(r"demo\(no change\)=(\d+) demo\(with change\)=(\d+) check=(\d+) violations=(\d+) with_witness=(\d+) ::\s*(.*)", line)
